@@ -3,6 +3,30 @@ GENERATED FILE — do not edit.  Regenerated from the CURRENT Rust sources by /v
     rs2lean <repo root> <out dir>
 Module `Pgn` (MONADIC MODE: `&mut self` methods as `do` blocks in the state monad `RsM`; see the module documentation of translator/src/monadic.rs and the header of `Prelude.lean`).
 Rust sources: pgn/src/reader.rs
+
+SEMANTICS OF THE MONADIC MODE (translator/src/monadic.rs).
+* The struct with the `&mut self` methods is regenerated as a Lean structure (integers = `Int`, `Vec<u8>` = `List Int`, `String` =
+  `List Char`, `HashMap` = `HMap`, its generic parameter `R` = a type variable `RT`); a method is a `do` block in
+  `RsM σ α := σ → Option (α × σ)` (σ = that structure): `none` = a Rust panic (overflow of `+= 1`, index out of bounds, `panic!`) or a
+  loop counter running out.  `self.f` reads `(← RsM.get).f`, `self.f = e` is `RsM.set { (← RsM.get) with f := e }`; `x += n` on an integer
+  field is range-checked (`chk`).
+* Statements are transliterated one to one: `let [mut]`, assignment, `if`, `match`, `return e` (Lean's `do` elaborator implements the
+  early return); the tail expression of the function body is `return e`.  A `Result` is an `Except` VALUE; `CALL?` is
+  `match (← CALL) with | Except.ok v => pure v | Except.error e => return (Except.error e)` bound to a temporary.
+* A call `self.m(args)` inside an expression is hoisted into a preceding `let t ← …` in evaluation order (a `self` field read BEFORE
+  such a call in the same expression is an error); `a || b` / `a && b` whose `b` calls a method is
+  `let t ← if a then pure true else do … pure b` (short circuit).
+* `while C { B }`, `while let P = E { B }`, `loop { B }` are separate definitions `F.loop_k Read_read fuel <captured> : Nat → <loop-carried
+  locals> → RsM σ (Ctl R S)` by recursion on the counter (`0` ↦ `none`): `Ctl.ret r` = the function returned `r` from inside the loop,
+  `Ctl.next s` = the loop ended (condition false or `break`) with the loop-carried locals `s` (the locals assigned in the body).  Method
+  calls inside the body get the ORIGINAL `fuel` of the function; the caller starts the counter at `fuel`.  After a `loop` without `break`
+  the code is unreachable (`RsM.panic`).  Nested loops are not supported.
+* `match` on an integer with literal patterns is an `if` chain (a binding catch-all is a `let`); `match` on a `Result` whose arms are
+  `Ok(literal | x) [if guard]` followed by one `_` is one `match` with an `if` chain in the `Ok` arm (fall-through to the `_` arm).
+* OPAQUE: `self.<field of the generic type>.read(&mut self.<buffer field>)` is the function parameter
+  `Read_read : RT → List Int → Except IoErrorT Int × RT × List Int` (reader, buffer) ↦ (result, reader after the call, buffer after the
+  call); what it is assumed to do is a hypothesis of the theorems (`ReadModel`, Props/Translated/PgnBuffer.lean).
+* Anything else is an error naming file, line, function and construct.
 -/
 import Inkayaku.Gen.Rs.Prelude
 
